@@ -56,6 +56,7 @@ type scenario struct {
 	Class      string // "hist", "fault", "conc", "edge"
 	PreDirect  []int  // submissions already in the backend in the default (full chain) layout, sequenced
 	PreHash    []int  // submissions made through the external-storage front end before the scenario starts, sequenced
+	HashFirst  bool   // the PreHash entries come first, the PreDirect entries after them: the log's storage mode was switched to external, back to the default, and to external again
 	Clients    [][]op
 	Cache      string // "noop", "lru1", "lru2", "lruN", "advH" (adversarial, hits by default), "advM" (misses by default)
 	Faults     string // "", "basic", "flip"
@@ -82,6 +83,9 @@ func (s scenario) histKey() string {
 	for _, u := range s.PreHash {
 		p = append(p, subs[u].Name)
 	}
+	if s.HashFirst {
+		p = append(p, "(hash-form entries first)")
+	}
 	return "pre[" + strings.Join(p, ",") + "] " + opsString(s.Clients[0])
 }
 
@@ -99,6 +103,9 @@ func (s scenario) String() string {
 		for _, u := range s.PreHash {
 			p = append(p, subs[u].Name)
 		}
+	}
+	if s.HashFirst {
+		p = append(p, "(the entries stored via external storage come first)")
 	}
 	ce := ""
 	if s.CtxEnd > 0 {
@@ -539,19 +546,29 @@ func newWorld(sc *scenario, indirect, bubble bool, viol func(sig, format string,
 		return rsp, err
 	})
 	w.free.Store(true)
-	if len(sc.PreDirect) > 0 {
-		// the log ran in the default mode before: these entries sit in the backend with their full chain
+	dOff, hOff := 0, 60 // millisecond offsets of the two preludes: the default-mode entries first ...
+	if sc.HashFirst {
+		dOff, hOff = 50, 0 // ... or after the entries stored via external storage
+	}
+	preDirect := func() {
+		if len(sc.PreDirect) == 0 {
+			return
+		}
+		// the log ran in the default mode: these entries sit in the backend with their full chain
 		d, err := fe.New(fe.Config{LogID: 7, Roots: roots, Signer: logKey.Priv, Client: w.be, Clock: w.clock})
 		if err != nil {
 			panic(err)
 		}
 		for i, u := range sc.PreDirect {
-			w.clock.Set(baseTime.Add(time.Duration(i+1) * time.Millisecond))
+			w.clock.Set(baseTime.Add(time.Duration(dOff+i+1) * time.Millisecond))
 			if r, _ := d.AddChain(subs[u].Pre, subs[u].Posted); r.Status != 200 {
 				panic(fmt.Sprintf("prelude %s: %d %s", subs[u].Name, r.Status, r.Body))
 			}
 		}
-		w.be.Sequence(-1, uint64(baseTime.Add(50*time.Millisecond).UnixNano()))
+		w.be.Sequence(-1, uint64(baseTime.Add(time.Duration(dOff+45+5*(1-dOff/50))*time.Millisecond).UnixNano()))
+	}
+	if !sc.HashFirst {
+		preDirect()
 	}
 	cfg := fe.Config{LogID: 7, Roots: roots, Signer: logKey.Priv, Client: w.be, Clock: w.clock}
 	if indirect {
@@ -565,11 +582,17 @@ func newWorld(sc *scenario, indirect, bubble bool, viol func(sig, format string,
 	if len(sc.PreHash) > 0 {
 		seq := 0
 		for i, u := range sc.PreHash {
-			tk := uint64(baseTime.UnixMilli()) + 60 + uint64(i)
+			tk := uint64(baseTime.UnixMilli()) + uint64(hOff) + uint64(i)
+			if hOff == 0 {
+				tk++
+			}
 			w.clock.Set(time.UnixMilli(int64(tk)))
 			w.runOp(0, &seq, op{K: "sub", U: u}, tk, "prelude")
 		}
-		w.be.Sequence(-1, uint64(baseTime.Add(90*time.Millisecond).UnixNano()))
+		w.be.Sequence(-1, uint64(baseTime.Add(time.Duration(hOff/60*45+45)*time.Millisecond).UnixNano()))
+	}
+	if sc.HashFirst {
+		preDirect()
 	}
 	return w
 }
